@@ -197,9 +197,17 @@ class Env:
             return t >> pdt.union(self.tables[st["right"]], distinct=st.get("distinct", False))
         if op == "export":
             if self.backend in ("postgres", "mssql", "sqlite_nodata"):
-                q1 = t >> pdt.build_query()
-                q2 = t >> pdt.build_query()
-                return dict(query=q1, same=(q1 == q2))
+                import uuid as _uuid
+
+                qs = [t >> pdt.build_query(), t >> pdt.build_query()]
+                # the text must not depend on the identities (UUIDs) the clone happens to draw
+                orig = _uuid.uuid1
+                try:
+                    _uuid.uuid1 = lambda *a, **k: _uuid.uuid4()
+                    qs += [t >> pdt.build_query() for _ in range(3)]
+                finally:
+                    _uuid.uuid1 = orig
+                return dict(query=qs[0], same=all(q == qs[0] for q in qs))
             return export_obs(t, st.get("target", "polars"))
         if op == "build_query":
             return t >> pdt.build_query()
